@@ -261,3 +261,21 @@ def where(fn: FunctionInfo, node: Optional[ast.AST] = None) -> str:
 def short(t: Term, n: int = 160) -> str:
     s = show(t)
     return s if len(s) <= n else s[:n] + '…'
+
+
+def guards_of(p: State, ev: Event) -> List[Tuple[Term, bool]]:
+    """Branch assumptions of the ``if`` statements that lexically enclose the event's node on
+    this path (the conditions that *decide* whether the construct is reached), innermost
+    last.  Assumptions made by unrelated earlier tests are not included."""
+    out: List[Tuple[Term, bool]] = []
+    ln = getattr(ev.node, 'lineno', None)
+    if ln is None:
+        return out
+    idx = p.events.index(ev) if ev in p.events else len(p.events)
+    for e in p.events[:idx]:
+        if e.kind != 'assume' or not isinstance(e.node, (ast.If, ast.While)):
+            continue
+        n = e.node
+        if n.lineno <= ln <= (n.end_lineno or n.lineno):
+            out.append((e.data[0], e.data[1]))
+    return out
